@@ -174,27 +174,29 @@ PROPERTIES = {
               'the PeerId a handler sees on a request and a caller sees on a response is connection.peer_id(), attached AFTER decoding, and decoding yields empty extensions, so nothing '
               'carried in the message can supply or influence it; the wire headers carry no identity field.',
         unverified=['rustls, webpki, ring, x509-parser, pkcs8 (the actual cryptography and certificate parsing): uninterpreted predicates',
-                    'CertVerifier::verify_client_cert / verify_server_cert (iterator and closure pipelines over &str): not proved; checked by BOUNDED enumeration on an executable model of webpki (unit enum_certs) and by the execution check cert_corpus',
+                    'CertVerifier::verify_client_cert / verify_server_cert are proved against webpki as four uninterpreted entry points (unit crypto; their three iterator pipelines rendered by the trusted shape rules X13); additionally BOUNDED enumeration on an executable model of webpki (unit enum_certs) and the execution check cert_corpus',
                     'what rustls / quinn do with the configuration they are handed (the builders are recorders: unit tls_config proves which verifier, certificate, key, versions and server name go in)',
                     'the two statics SUPPORTED_SIG_ALGS / SUPPORTED_ALGORITHMS hold &dyn objects: compared textually with the pinned definition (mismatch = undecided)'],
         assumptions=['rustls reports the peer chain end-entity first and non-empty under mandatory client auth'],
     ),
     'C14': dict(
-        units=['tls_config', 'enum_certs'],
-        canaries=['tls_config', 'certs'],
+        units=['tls_config', 'crypto', 'enum_certs'],
+        canaries=['tls_config', 'crypto', 'certs'],
         extra=[validate.network_names, validate.claimed_name_grid, validate.cert_corpus],
         counterexample=cex.cex_names,
-        scope='GLUE ONLY. Proved (Verus, unit tls_config): a dial always asks for the node\'s PRIMARY network name; the node presents a certificate self-signed for that name; the dialer\'s '
+        scope='GLUE around webpki / rustls. Proved (Verus, unit tls_config): a dial always asks for the node\'s PRIMARY network name; the node presents a certificate self-signed for that name; the dialer\'s '
               'verifier is anemo\'s CertVerifier configured for exactly the primary name, the listener\'s for the primary (and alternate) name and no other; the TLS configurations install exactly '
-              'those verifiers. BOUNDED (unit enum_certs, the real text of CertVerifier::verify_server_cert / verify_client_cert / prepare_for_self_signed / pki_error and the real static '
-              'SUPPORTED_SIG_ALGS on an executable model of webpki, every certificate of the model): a certificate is accepted iff it is a well-formed, currently valid, SELF-signed Ed25519 '
-              'certificate permitting the usage, and - dialer side - the requested name is one the verifier is configured for and the certificate is valid for it, - listener side - the '
-              'certificate is valid for one of the names the listener accepts.',
-        unverified=['SNI resolution in rustls (which certificate a listener presents for a requested name, refusal of unknown names) and subject-name matching in webpki: exercised end to end by the execution check network_names (all ordered pairs of five networks) and cert_corpus, never proved',
+              'those verifiers. Proved (Verus, unit crypto, webpki as four uninterpreted entry points): CertVerifier::verify_server_cert accepts a listener\'s certificate ONLY IF webpki validates '
+              'it against a trust store holding nothing but that very certificate, with Ed25519 as the only algorithm, for server authentication, the requested name is a DNS name the verifier is '
+              'configured for AND the certificate is valid for exactly that name - and accepts whenever all of that holds; CertVerifier::verify_client_cert admits a dialer\'s certificate ONLY IF the '
+              'same validation succeeds for client authentication and the certificate is valid for at least one name the listener accepts - and admits whenever that holds (names well-formed); '
+              'prepare_for_self_signed (the only trust root is the presented certificate itself), pki_error (total). BOUNDED twin (unit enum_certs, the same real text on an executable model of '
+              'webpki, every certificate of the model): accepted iff well-formed, currently valid, SELF-signed Ed25519, usage permitted and the name conditions above.',
+        unverified=['SNI resolution in rustls (which certificate a listener presents for a requested name, refusal of unknown names) and subject-name matching / path validation inside webpki (four uninterpreted functions in unit crypto): exercised end to end by the execution check network_names (all ordered pairs of seven networks) and cert_corpus, never proved',
                     'the listener\'s certificate resolver is filled in a loop over (name, certificate) pairs: that its names are exactly the configured ones is not proved (only that every entry carries the node\'s key)',
-                    'the two verifier bodies are checked by bounded enumeration over a model of webpki, not proved',
-                    'a peer that claims one name in the TLS hello while presenting a certificate for another: decided inside rustls / webpki; covered only through the verifier twins and cert_corpus'],
-        assumptions=['the executable webpki model of unit enum_certs (stated in its docstring)'],
+                    'the three iterator pipelines of the two verifier bodies are rendered as assumed generic functions (shape rules X13, unit crypto docstring); the closures inside them are verified against the contract their shape determines',
+                    'a peer that claims one name in the TLS hello while presenting a certificate for another: decided inside rustls / webpki; covered only through the verifier contracts, their bounded twins and cert_corpus'],
+        assumptions=['the contracts of webpki\'s four entry points in unit crypto (uninterpreted functions of exactly the arguments handed over)', 'the executable webpki model of unit enum_certs (stated in its docstring)'],
     ),
     'C16': dict(
         units=['routing', 'enum_router'],
